@@ -243,6 +243,8 @@ def redump(v):
     if not isinstance(v, _REDUMP_TYPES):
         return
     for what, f in (("repr", repr), ("str", str), ("to_header", lambda x: x.to_header() if hasattr(x, "to_header") else None)):
+        if LIGHT[0] and what != "repr":
+            break           # ramps (thousands of items): one printing pass is enough for termination
         try:
             f(v)
         except BudgetExceeded:
@@ -453,6 +455,30 @@ def param_inputs(kind, head_index, tails=P_TAILS):
             if s_ not in seen:
                 seen.add(s_)
                 yield s_
+
+
+# calendar boundaries x extreme zones x the three date syntaxes: both ends of datetime's range meet both offset signs
+D_DAYS = [("31", "Dec", "9999"), ("01", "Jan", "0001"), ("1", "Jan", "1"), ("01", "Jan", "1000"), ("31", "Dec", "1969"),
+          ("01", "Jan", "1970"), ("19", "Jan", "2038"), ("01", "Jan", "10000"), ("01", "Jan", "0000"), ("29", "Feb", "2024"),
+          ("31", "Dec", "99"), ("01", "Jan", "00"), ("01", "Jan", "69"), ("31", "Dec", "68"), ("31", "Dec", "999")]
+D_TIMES = ["00:00:00", "23:59:59", "00:30:00", "23:30:00", "12:00", "24:00:00", "23:59:60"]
+D_ZONES = ["", "GMT", "UT", "Z", "EST", "EDT", "PST", "A", "M", "N", "Y", "J", "+0000", "-0000", "+0100", "-0100", "+2359",
+           "-2359", "+9999", "-9999", "+1", "-0100 (EST)", "+2400", "-2400"]
+D_SINKS = ["parse_date", "parse_if_range_header"]
+D_VARS = ["HTTP_DATE", "HTTP_IF_MODIFIED_SINCE", "HTTP_IF_UNMODIFIED_SINCE", "HTTP_IF_RANGE"]
+
+
+def date_inputs(day_index):
+    d, mon, y = D_DAYS[day_index]
+    seen = set()
+    for t_ in D_TIMES:
+        for z in D_ZONES:
+            for v in (f"Fri, {d} {mon} {y} {t_} {z}", f"{d} {mon} {y} {t_} {z}", f"Friday, {d}-{mon}-{y[-2:]} {t_} {z}",
+                      f"Friday, {d}-{mon}-{y} {t_} {z}", f"Fri {mon} {d:>2} {t_} {y}", f"Fri {mon} {d:>2} {t_} {y} {z}"):
+                v = v.rstrip()
+                if v not in seen:
+                    seen.add(v)
+                    yield v
 
 
 GRAMMAR = {
@@ -736,7 +762,7 @@ def ramp_sizes(tier):
     return RAMP_N if tier == "thorough" else (RAMP_N[0], RAMP_N[-1])
 
 
-def ramp_inputs(extra, n):
+def ramp_inputs(extra, n, nprefix=3):
     """prefix + pattern * n: every atom and every ordered pair of structural atoms; single characters also at
     2n (8192 digits cross CPython's int-conversion limit of 4300)."""
     pats = []
@@ -749,7 +775,7 @@ def ramp_inputs(extra, n):
             pats.append((x + y, n))
     for x in RAMP_X:
         pats.append((x, n))
-    prefixes = [""] + list(extra[:3])
+    prefixes = [""] + list(extra[:nprefix])
     seen = set()
     for p, k in pats:
         if len(p) * k > 8200:
@@ -865,6 +891,8 @@ def units(tier):
             us.append(("storage", var, (i, min(n, i + 8))))
     for i in range(len(MP_CD)):
         us.append(("mpart", i))
+    for i in range(len(D_DAYS)):
+        us.append(("dates", i, "all" if T else "deps"))
     for name, kind in P_OF.items():
         for hi in range(len(P_KIND[kind][0])):
             us.append(("params", name, hi, "all" if T else "deps"))
@@ -1237,6 +1265,16 @@ def _run(unit, kind, R, ctx, tier):
             for v in seqs_from(alpha, fi, 2):
                 eval_request(ctx, {var: v}, config="plain_storage")
         return
+    if kind == "dates":
+        _k, di, which = unit
+        R.use("dates")
+        for v in date_inputs(di):
+            for name in D_SINKS:
+                eval_sink(ctx, name, SINKS[name][0], v, family="dates")
+            for var in D_VARS:
+                eval_request(ctx, {var: v}, family="dates", sites=SITES if which == "all" else site_deps()[var])
+            R.nontrivial(("dates", v))
+        return
     if kind == "params":
         _k, name, hi, which = unit
         R.use("params:" + P_OF[name])
@@ -1309,7 +1347,7 @@ def _run(unit, kind, R, ctx, tier):
         sites = SITES if which == "all" else site_deps()[var]
         LIGHT[0] = True
         try:
-            for v in ramp_inputs(VARS[var], n):
+            for v in ramp_inputs(VARS[var], n, 3 if which == "all" else 1):
                 t0 = process_time()
                 eval_request(ctx, {var: v}, family="ramp", sites=sites)
                 if process_time() - t0 > 1.0:
@@ -1334,7 +1372,7 @@ def finalize(R, tier):
     need |= {"pair:" + "+".join(sorted(p)) for p in PAIRS}
     need |= {"sites:all", "sites:deps", "order:reverse", "server-variant", "config:plain_storage", "config:trusted_str",
              "mpart", "config:limits"}
-    need |= {"params:" + k for k in P_KIND}
+    need |= {"params:" + k for k in P_KIND} | {"dates"}
     need |= {"gsink:" + n for n in SINKS} | {"genv:" + v for v in VARS if v in GRAMMAR}
     for name, atoms in GRAMMAR.items():
         for a in list(atoms) + NASTY:
@@ -1508,7 +1546,7 @@ def _f_date_overflow(rec):
     return var is not None and bool(_LONG_DIGITS.search(rec["vars"].get(var) or ""))
 
 
-_BARE_STAR_KEY = re.compile(r"(^|[,\s])\*\s*(=|,|$)")
+_BARE_STAR_KEY = re.compile(r"(^|[,\s\"])\*\s*(=|,|$|\")")
 
 
 def _text_of(rec, var):
@@ -1539,7 +1577,18 @@ def _f_ifrange_quote(rec):
     return rec["site"] == "if_range" and '"' in (rec["vars"].get("HTTP_IF_RANGE") or "")
 
 
+def _f_ifrange_date_overflow(rec):
+    """If-Range date whose UTC instant leaves year 1..9999: parsed, but IfRange.to_header / str / repr raise"""
+    if not (rec["exc"].startswith("redump:") and rec["exc"].endswith(":OverflowError")
+            and "http.http_date" in rec["tb"] and rec["tb"][-1:] == ["_internal._dt_as_utc"]):
+        return False
+    text = rec["input"] if rec["kind"] == "sink" else (rec["vars"].get("HTTP_IF_RANGE") or "")
+    ok = rec["site"] == ("parse_if_range_header" if rec["kind"] == "sink" else "if_range")
+    return ok and bool(re.search(r"9999|\b0*1\b|0001", text))
+
+
 FINDINGS = {
+    "C07-if-range-date-at-range-end-redump-overflowerror": _f_ifrange_date_overflow,
     "C07-dict-star-only-key-redump-indexerror": _f_dict_star_key,
     "C07-if-range-quote-in-etag-redump-valueerror": _f_ifrange_quote,
     "C07-parse-date-overflowerror": _f_date_overflow,
